@@ -1009,7 +1009,15 @@ def where(cond, x, y):
         if y.ndim == cond.lhs.ndim:
             return y
         return binop(y, ones(cond.lhs.shape, y.dtype), "mul")
-    raise EngineError("where on symbolic data (E1-generic)")
+    # a data-dependent selection the canonical forms do not express: the result is an ARBITRARY tensor of the broadcast shape and the numpy result dtype
+    # (sound for every claim that is proved - it then holds whatever was selected; a mismatch involving such a value is never reported as refuted without
+    # a native witness, see oblig._concretize)
+    lhs = cond.lhs if isinstance(cond, ElemCond) else cond
+    z = lift(x) * 0 + lift(y) * 0
+    if isinstance(lhs, GTensor):
+        z = z + lhs * 0
+    dt = _result_dtype(x, y)
+    return opaque_tensor("WHERE", axis_sizes(z), dt)
 
 
 # ------------------------------------------------------------------------------------------------ indexing
